@@ -188,7 +188,9 @@ def build_harness(src_name, config, log, extra_libs=()):
                "-I", str(REPO), "-I", str(bdir), "-I", str(REPO / "symengine" / "utilities" / "cereal" / "include"),
                "-I", str(ROOT / "harness"),
                str(src), "-o", str(out), str(lib)] + libs + list(cfg["extra"]) + list(extra_libs)
-        rc, o = sh(cmd)
+        # hold the library lock while linking: another check may be rebuilding libsymengine.a
+        with Lock("impl-" + config):
+            rc, o = sh(cmd)
         if rc != 0:
             raise BuildError("harness %s failed to build:\n%s" % (src_name, o[-4000:]))
         stamp.write_text(h.hexdigest())
